@@ -233,7 +233,7 @@ def bump_versions(prog, touched, tag):
 # ------------------------------------------------------------------------------------------
 
 EDIT_KINDS = ["lit", "nested", "pdef", "kwdef", "setmember", "tupmember", "var", "varmut", "retarget",
-              "hide", "unhide", "version", "addglob", "follow", "hidtarget"]
+              "hide", "unhide", "version", "addglob", "follow", "hidtarget", "varcopy"]
 
 
 def _sites(prog, kind):
@@ -272,6 +272,9 @@ def _sites(prog, kind):
                     out.append((d, e))
         elif d["k"] == "var":
             if kind == "var":
+                out.append((d, None))
+            if kind == "varcopy" and any(o["k"] == "var" and o["vtype"] == d["vtype"] and o["value"] != d["value"] for o in prog["defs"]):
+                # give the variable the value another variable of the same type currently has
                 out.append((d, None))
             if kind == "varmut" and d["vtype"] in ("list", "dict"):
                 out.append((d, None))
@@ -335,6 +338,9 @@ def apply_edit(prog, edit, tag):
             d["value"] = dict(d["value"], k=d["value"]["k"] + delta)
         else:
             d["value"] = d["value"] + "y"
+    elif kind == "varcopy":
+        others = [o for o in p["defs"] if o["k"] == "var" and o["vtype"] == d["vtype"] and o["value"] != d["value"]]
+        d["value"] = copy.deepcopy(others[edit.get("idx", 0) % len(others)]["value"])
     elif kind == "varmut":
         if d["vtype"] == "list":
             d["value"] = d["value"] + [delta]
@@ -379,7 +385,7 @@ def apply_edit(prog, edit, tag):
 # ------------------------------------------------------------------------------------------
 
 def program_strategy(max_fns=6, two_modules=True, allow_hidden=True, allow_explicit=True, allow_cluster=True,
-                     str_sets=True, allow_hidden_plain=False, allow_alias=True, explicit_f0=False):
+                     str_sets=True, allow_hidden_plain=False, allow_alias=True, explicit_f0=False, value_heavy=False):
     from hypothesis import strategies as st
 
     small = st.integers(0, 9)
@@ -388,11 +394,13 @@ def program_strategy(max_fns=6, two_modules=True, allow_hidden=True, allow_expli
     def prog(draw):
         modules = ["a", "b"] if (two_modules and draw(st.booleans())) else ["a"]
         nf = draw(st.integers(2, max_fns))
-        nv = draw(st.integers(0, 3))
+        nv = draw(st.integers(3, 5)) if value_heavy else draw(st.integers(0, 4))
         defs = []
+        tiny = value_heavy or draw(st.booleans())  # few distinct values: equal-valued variables are frequent
+        small_v = st.integers(0, 1) if value_heavy else (st.integers(0, 2) if tiny else small)
         for i in range(nv):
-            vt = draw(st.sampled_from(["int", "int", "list", "dict", "str"]))
-            val = {"int": draw(small), "list": draw(st.lists(small, max_size=3)), "dict": {"k": draw(small), "z": 1},
+            vt = "int" if value_heavy else draw(st.sampled_from(["int", "int", "int", "list", "dict", "str"] if tiny else ["int", "int", "list", "dict", "str"]))
+            val = {"int": draw(small_v), "list": draw(st.lists(small_v, max_size=3)), "dict": {"k": draw(small_v), "z": 1},
                    "str": draw(st.text(alphabet="ab", max_size=3))}[vt]
             defs.append({"k": "var", "mod": draw(st.sampled_from(modules)), "name": "G%d" % i, "vtype": vt, "value": val})
         fnames = ["f%d" % i for i in range(nf)]
@@ -466,6 +474,10 @@ def program_strategy(max_fns=6, two_modules=True, allow_hidden=True, allow_expli
                     elif form == 1:
                         call["form"] = "clone"
                 body = {"e": "add", "a": body, "b": call}
+            if n == "f0" and tiny and varnames and (value_heavy or draw(st.booleans())):
+                # the root reads every variable: value-hashed entities with equal values in one closure
+                for vn in varnames:
+                    body = {"e": "add", "a": body, "b": {"e": "glob", "n": vn}}
             d["body"] = body
             defs.append(d)
         defs += extra
@@ -481,7 +493,7 @@ def program_strategy(max_fns=6, two_modules=True, allow_hidden=True, allow_expli
 def edit_strategy():
     from hypothesis import strategies as st
     return st.builds(lambda k, s, dl, alt, idx: {"kind": k, "site": s, "delta": dl, "alt": alt, "idx": idx},
-                     st.sampled_from(EDIT_KINDS + ["lit", "pdef", "kwdef", "nested", "var", "retarget"]),
+                     st.sampled_from(EDIT_KINDS + ["lit", "pdef", "kwdef", "nested", "var", "retarget", "varcopy", "hidtarget"]),
                      st.integers(0, 30), st.integers(1, 5), st.booleans(), st.integers(0, 5))
 
 
